@@ -106,6 +106,11 @@ func (p *Peer) Run(o *Opts, ops []string) *Outcome {
 			err = p.SendAlert(2, byte(d))
 		case op == "APP":
 			err = p.SendApp([]byte("scripted application data"))
+		case op == "CCS0":
+			p.SwitchKeysSilently()
+		case op == "HREQ":
+			// a HelloRequest (handshake type 0, no body): not a TLCP message, not part of any transcript
+			err = p.SendMsg(0, nil, true)
 		case op == "[":
 			p.BeginPack()
 		case op == "]":
